@@ -3,6 +3,7 @@ CONSTANTS
   Budget = 4
   Enabled = {"Name", "Const", "SimpleStmt", "Def", "Class", "TypeParams", "Starred", "Call", "Module"}
   NameSet = {"a", "b"}
+  ExtraParens = FALSE
   Emit = TRUE
 SPECIFICATION Spec
 INVARIANTS EmitOK
